@@ -62,6 +62,7 @@ ObsInit == [
     bmsgs    |-> EmptyFn,      \* broker message token -> [k (first transmission), qos]
     q2done   |-> {},           \* broker QoS 2 messages whose exchange completed (PUBCOMP received)
     q1acked  |-> {},           \* broker QoS 1 messages acknowledged by the client
+    relsd    |-> {},           \* QoS 2 requests whose successful PUBREC the client has consumed (hook: dispatch / wait)
     subOk    |-> FALSE,        \* a subscription succeeded since start / last session_expired report
     owed     |-> 0,            \* session_expired reports owed and not yet delivered
     expired  |-> 0,            \* session_expired reports delivered
@@ -299,6 +300,16 @@ StepBSend(o, e) ==
             THEN [o1 EXCEPT !.conn[c].relOwed = cr.relOwed \cup {e.pid}]
        ELSE o1
 
+\* guarded hook events of the library (include/boost/mqtt5/detail/verif.hpp).  Only one fact is taken from them:
+\* the instant the client consumes a PUBREC (replies::dispatch finds the waiter, or async_wait_reply finds the
+\* fast reply).  0x50 = 80 is the PUBREC control code.
+StepHook(o, e) ==
+    IF (e.k = "dispatch" \/ e.k = "wait") /\ e.a = 80 /\ e.c = 1 THEN
+        LET ids == {id \in OpIds(o) : o.ops[id].kind = "pub2" /\ o.ops[id].pid = e.b /\ o.ops[id].done = 0}
+            recs == {j \in DOMAIN o.sent : o.sent[j].type = "PUBREC" /\ o.sent[j].pid = e.b}
+        IN IF ids # {} /\ recs # {} /\ o.sent[Max(recs)].rc < 128 THEN [o EXCEPT !.relsd = @ \cup ids] ELSE o
+    ELSE o
+
 ObsStep(o, e) ==
     CASE e.e = "reset"      -> ObsInit
       [] e.e = "cfg"        -> [o EXCEPT !.cfgdig = e.dig, !.ka = e.ka, !.hosts = e.hosts, !.nep = e.nep]
@@ -339,6 +350,7 @@ ObsStep(o, e) ==
       [] e.e = "c_pkt"      -> StepPkt(o, e)
       [] e.e = "b_recv"     -> StepBRecv(o, e)
       [] e.e = "b_send"     -> StepBSend(o, e)
+      [] e.e = "h"          -> StepHook(o, e)
       [] e.e = "drain"      -> [o EXCEPT !.drainT = e.t]
       [] OTHER              -> o
 
@@ -429,6 +441,7 @@ PktClauses(o, e) ==
     \cup (IF e.type = "PUBLISH" /\ e.qos = 2 /\ ids # {} /\ Outstanding(o, Min(ids)) /\ \E x \in DOMAIN o.pkts :
                  o.pkts[x].type = "PUBREL" /\ o.pkts[x].pid = e.pid /\ \E y \in earlier : y < x
             THEN {"C03_a_PublishAfterPubrel"} ELSE {})
+    \cup (IF e.type = "PUBLISH" /\ ids # {} /\ Min(ids) \in o.relsd THEN {"C03_a_PublishAfterPubrecConsumed"} ELSE {})
     \* C06: PUBLISH packets leave in initiation order
     \cup (IF known /\ e.type = "PUBLISH" /\ ids # {} /\ (e.qos > 0 \/ cr.rm = 65535) /\ \E x \in DOMAIN cr.ords :
                  /\ cr.ords[x].ord > o.ops[Min(ids)].ord
